@@ -217,6 +217,8 @@ func routesJSON(rs []*route) []obj {
 				hs = append(hs, obj{"handler": "verif_c05", "id": h.id, "kind": "rewrite", "path": paths[h.arg]})
 			case 'f':
 				hs = append(hs, obj{"handler": "verif_c05", "id": h.id, "kind": "fail", "status": h.arg})
+			case 'i':
+				hs = append(hs, obj{"handler": "invoke", "name": "n" + strconv.Itoa(h.arg)})
 			case 'x', 'y':
 				o := obj{"handler": map[byte]string{'x': "error", 'y': "static_response"}[h.kind]}
 				switch h.arg {
@@ -249,7 +251,7 @@ func routesJSON(rs []*route) []obj {
 	return out
 }
 
-func appJSON(rs []*route, hasErrs bool, errs []*route) []byte {
+func appJSON(rs []*route, hasErrs bool, errs []*route, named []*route) []byte {
 	srv := obj{
 		"listen":          []string{":0"},
 		"automatic_https": obj{"disable": true},
@@ -257,6 +259,13 @@ func appJSON(rs []*route, hasErrs bool, errs []*route) []byte {
 	}
 	if hasErrs {
 		srv["errors"] = obj{"routes": routesJSON(errs)}
+	}
+	if len(named) > 0 {
+		nr := obj{}
+		for j, r := range routesJSON(named) {
+			nr["n"+strconv.Itoa(j+1)] = r
+		}
+		srv["named_routes"] = nr
 	}
 	b, err := json.Marshal(obj{"servers": obj{"s": srv}})
 	if err != nil {
@@ -436,8 +445,8 @@ type observed struct {
 
 // serveReal provisions the tree as a real http app and serves one request through
 // Server.ServeHTTP.
-func serveReal(rs []*route, hasErrs bool, errs []*route, q request) (observed, error) {
-	obs, err := serveSeq(rs, hasErrs, errs, []request{q})
+func serveReal(rs []*route, hasErrs bool, errs []*route, q request, named []*route) (observed, error) {
+	obs, err := serveSeq(rs, hasErrs, errs, []request{q}, named)
 	if err != nil {
 		return observed{}, err
 	}
@@ -446,14 +455,14 @@ func serveReal(rs []*route, hasErrs bool, errs []*route, q request) (observed, e
 
 // serveSeq provisions the tree once and serves the requests one after the other on the same
 // server.
-func serveSeq(rs []*route, hasErrs bool, errs []*route, qs []request) (obs []observed, err error) {
+func serveSeq(rs []*route, hasErrs bool, errs []*route, qs []request, named []*route) (obs []observed, err error) {
 	b, err := base()
 	if err != nil {
 		return obs, err
 	}
 	ctx, cancel := caddy.NewContext(b)
 	defer cancel()
-	v, err := ctx.LoadModuleByID("http", appJSON(rs, hasErrs, errs))
+	v, err := ctx.LoadModuleByID("http", appJSON(rs, hasErrs, errs, named))
 	if err != nil {
 		return obs, fmt.Errorf("provision: %v", err)
 	}
@@ -466,6 +475,15 @@ func serveSeq(rs []*route, hasErrs bool, errs []*route, qs []request) (obs []obs
 			return obs, fmt.Errorf("server lost its errors")
 		}
 		if err := pinRoutes(errs, srv.Errors.Routes); err != nil {
+			return obs, err
+		}
+	}
+	for j, nr := range named {
+		p := srv.NamedRoutes["n"+strconv.Itoa(j+1)]
+		if p == nil {
+			return obs, fmt.Errorf("server lost named route %d", j+1)
+		}
+		if err := pinRoutes([]*route{nr}, caddyhttp.RouteList{*p}); err != nil {
 			return obs, err
 		}
 	}
